@@ -136,7 +136,7 @@ func vxBuildWorld(job vxJob) *vxWorld {
 			os.WriteFile(d.cmdPwm, []byte(strconv.Itoa(f.OrigPwm)), 0644)
 			os.WriteFile(d.cmdMode, []byte("ok"), 0644)
 			// behaviour of each script is selected by words in the mode file: <component>:<kind>
-			vxWriteScript(filepath.Join(base, "set.sh"), fmt.Sprintf("m=$(cat %s)\ncase \"$m\" in *pwmwrite:error*) echo refused >&2; exit 1;; *pwmwrite:ignored*) exit 0;; esac\necho \"set $1\" >> %s\nprintf %%s \"$1\" > %s\n", d.cmdMode, d.cmdLog, d.cmdPwm))
+			vxWriteScript(filepath.Join(base, "set.sh"), fmt.Sprintf("m=$(cat %s)\ncase \"$m\" in *pwmwrite:error*) echo \"refused $1\" >> %s; echo refused >&2; exit 1;; *pwmwrite:ignored*) echo \"ignored $1\" >> %s; exit 0;; esac\necho \"set $1\" >> %s\nprintf %%s \"$1\" > %s\n", d.cmdMode, d.cmdLog, d.cmdLog, d.cmdLog, d.cmdPwm))
 			vxWriteScript(filepath.Join(base, "get.sh"), fmt.Sprintf("m=$(cat %s)\ncase \"$m\" in *pwmread:error*) exit 1;; *pwmread:garbage*) echo n/a; exit 0;; *pwmread:blank*) echo; exit 0;; *pwmread:empty*) exit 0;; esac\ncat %s\n", d.cmdMode, d.cmdPwm))
 			vxWriteScript(filepath.Join(base, "rpm.sh"), fmt.Sprintf("m=$(cat %s)\ncase \"$m\" in *rpm:error*) exit 1;; *rpm:garbage*) echo n/a; exit 0;; *rpm:blank*) echo; exit 0;; *rpm:empty*) exit 0;; esac\necho $(( 300 + $(cat %s) * 10 ))\n", d.cmdMode, d.cmdPwm))
 			fmt.Fprintf(&y, "    cmd:\n      setPwm:\n        exec: %s/set.sh\n        args: [\"%%pwm%%\"]\n      getPwm:\n        exec: %s/get.sh\n      getRpm:\n        exec: %s/rpm.sh\n", base, base, base)
@@ -534,6 +534,13 @@ func vxRunJob(scratch string, job vxJob, id int64) vxOutcome {
 			e.Pwm = vxReadInt(filepath.Join(sys, fmt.Sprintf("file%d", i), "pwm"))
 		case "cmd":
 			e.Pwm = vxReadInt(filepath.Join(job.Dir, fmt.Sprintf("cmd%d", i), "pwm"))
+			if b, err := os.ReadFile(filepath.Join(job.Dir, fmt.Sprintf("cmd%d", i), "log")); err == nil {
+				for _, l := range strings.Split(string(b), "\n") {
+					if strings.HasPrefix(l, "refused ") || strings.HasPrefix(l, "ignored ") {
+						o.Events = append(o.Events, fmt.Sprintf("cmdlog %s fault pwmwrite %s pwm=%s", f.ID, strings.Fields(l)[0], strings.Fields(l)[1]))
+					}
+				}
+			}
 		}
 		o.Fans = append(o.Fans, e)
 	}
